@@ -52,41 +52,61 @@ LayFrom(raw, a, i) == IF i > Len(raw.size) THEN a ELSE LayFrom(raw, LayStep(raw,
 Layout(raw) == LayFrom(raw, [sh |-> <<>>, off |-> <<>>, cur |-> 1, sz |-> 0, cnt |-> 0], 1)
 
 \* raw = [size, obj, fail, cap, mw, maxShard]  (maxShard = 0: one file)
-MkCfg(raw) ==
+MkBase(raw) ==
   LET lay     == Layout(raw)
       ns      == lay.cur
       sharded == raw.maxShard > 0 /\ ns > 1 /\ raw.mw > 1
+      \* as _write_external_tensors computes them
       nd      == IF sharded THEN PMin(raw.mw, ns) ELSE 1
       ni      == IF sharded THEN PMax(1, (raw.mw - nd) \div nd) ELSE raw.mw
   IN [n |-> Len(raw.size), size |-> raw.size, obj |-> raw.obj, fail |-> raw.fail,
       cap |-> PMax(raw.cap, 1), mw |-> raw.mw, maxShard |-> raw.maxShard, ns |-> ns,
       shardOf |-> lay.sh, off |-> lay.off, sharded |-> sharded, nd |-> nd, ni |-> ni]
 
-Drv(c)      == IF c.sharded THEN 1..c.nd ELSE {0}
-WrkOf(c, d) == IF c.ni > 1 THEN {10 * d + k : k \in 1..c.ni} ELSE {}
-Wrk(c)      == UNION {WrkOf(c, d) : d \in Drv(c)}
-Thr(c)      == {0} \cup Drv(c) \cup Wrk(c)
-DrvOf(w)    == w \div 10
-Objs(c)     == {c.obj[i] : i \in 1..c.n}
-TensorsOf(c, s) == SelectSeq([i \in 1..c.n |-> i], LAMBDA i : c.shardOf[i] = s)
-Par(c, s)   == c.ni > 1 /\ Len(TensorsOf(c, s)) > 1      \* _ExternalDataWriter.write
-SizeOfObj(c, o) == c.size[CHOOSE i \in 1..c.n : c.obj[i] = o]
-MaxSize(c)  == IF c.n = 0 THEN 0 ELSE CHOOSE m \in {c.size[i] : i \in 1..c.n} : \A i \in 1..c.n : c.size[i] <= m
-Flen(c, s)  == LET e == {c.off[i] + c.size[i] : i \in {i \in 1..c.n : c.shardOf[i] = s}}
-               IN IF e = {} THEN 0 ELSE CHOOSE m \in e : \A x \in e : x <= m
-
-ZeroFiles(c) == [s \in 1..c.ns |-> [k \in 1..Flen(c, s) |-> 0]]
+BDrv(c)      == IF c.sharded THEN 1..c.nd ELSE {0}
+BWrkOf(c, d) == IF c.ni > 1 THEN {10 * d + k : k \in 1..c.ni} ELSE {}
+BTensorsOf(c, s) == SelectSeq([i \in 1..c.n |-> i], LAMBDA i : c.shardOf[i] = s)
+BMaxSize(c)  == IF c.n = 0 THEN 0 ELSE CHOOSE m \in {c.size[i] : i \in 1..c.n} : \A i \in 1..c.n : c.size[i] <= m
+BFlen(c, s)  == LET e == {c.off[i] + c.size[i] : i \in {i \in 1..c.n : c.shardOf[i] = s}}
+                IN IF e = {} THEN 0 ELSE CHOOSE m \in e : \A x \in e : x <= m
+BZeroFiles(c) == [s \in 1..c.ns |-> [k \in 1..BFlen(c, s) |-> 0]]
 WriteAt(c, f, i) ==
   [f EXCEPT ![c.shardOf[i]] =
       [k \in DOMAIN @ |-> IF k > c.off[i] /\ k <= c.off[i] + c.size[i] THEN c.obj[i] ELSE @[k]]]
 RECURSIVE SerialFrom(_, _, _)
 SerialFrom(c, f, i) == IF i > c.n THEN f ELSE SerialFrom(c, WriteAt(c, f, i), i + 1)
-\* what _write_serial produces: tensors written one after the other in declaration order
-SerialFile(c) == SerialFrom(c, ZeroFiles(c), 1)
+
+\* the full configuration record: layout, thread structure, and what _write_serial produces
+\* (tensors written one after the other in declaration order)
+MkCfg(raw) ==
+  LET c == MkBase(raw)
+      drv == BDrv(c)
+      wrk == UNION {BWrkOf(c, d) : d \in drv}
+  IN [n |-> c.n, size |-> c.size, obj |-> c.obj, fail |-> c.fail, cap |-> c.cap, mw |-> c.mw,
+      maxShard |-> c.maxShard, ns |-> c.ns, shardOf |-> c.shardOf, off |-> c.off,
+      sharded |-> c.sharded, nd |-> c.nd, ni |-> c.ni,
+      drv |-> drv, wrkOf |-> [d \in drv |-> BWrkOf(c, d)], wrk |-> wrk, thr |-> {0} \cup drv \cup wrk,
+      objs |-> {c.obj[i] : i \in 1..c.n},
+      tens |-> [s \in 1..c.ns |-> BTensorsOf(c, s)],
+      par |-> [s \in 1..c.ns |-> c.ni > 1 /\ Len(BTensorsOf(c, s)) > 1],   \* _ExternalDataWriter.write
+      objSize |-> [o \in {c.obj[i] : i \in 1..c.n} |-> c.size[CHOOSE i \in 1..c.n : c.obj[i] = o]],
+      maxSize |-> BMaxSize(c), zero |-> BZeroFiles(c), serial |-> SerialFrom(c, BZeroFiles(c), 1)]
+
+Drv(c)      == c.drv
+WrkOf(c, d) == c.wrkOf[d]
+Wrk(c)      == c.wrk
+Thr(c)      == c.thr
+DrvOf(w)    == w \div 10
+Objs(c)     == c.objs
+TensorsOf(c, s) == c.tens[s]
+Par(c, s)   == c.par[s]
+MaxSize(c)  == c.maxSize
+ZeroFiles(c) == c.zero
+SerialFile(c) == c.serial
 
 (***************************************************************************)
 VARIABLES
-  cfg,        \* the configuration record (never changes)
+  cfg,        \* the configuration record built by MkCfg (never changes)
   pc,         \* thread -> control point
   task,       \* thread -> tensor index being processed (0: none)
   job,        \* driver -> shard being written (0: none)
@@ -111,11 +131,11 @@ vLocks == <<tlock, icb, ocb, flock>>
 vBud   == <<inFlight, oversized, waiters>>
 vOut   == <<file, cbCount>>
 
-T  == Thr(cfg)
+T  == cfg.thr
 Sz(t)  == cfg.size[task[t]]
 Ob(t)  == cfg.obj[task[t]]
 Big(t) == Sz(t) > cfg.cap
-IsWrk(t) == t \in Wrk(cfg)
+IsWrk(t) == t > (IF cfg.sharded THEN 10 ELSE 0)
 CanAcq(t) == IF Big(t) THEN ~oversized ELSE inFlight + Sz(t) <= cfg.cap
 
 InitFor(c) ==
@@ -237,20 +257,20 @@ ICbAcq(w) ==
   /\ UNCHANGED <<cfg, task, vPool, exc, hasFile, tlock, ocb, flock, vBud, vOut>>
 
 OCbAcq(t) ==
-  /\ t \in T /\ pc[t] = "ocbWait" /\ ocb = NoOne
+  /\ pc[t] = "ocbWait" /\ ocb = NoOne
   /\ ocb' = t
   /\ pc' = [pc EXCEPT ![t] = "inCb"]
   /\ UNCHANGED <<cfg, task, vPool, exc, hasFile, tlock, icb, flock, vBud, vOut>>
 
 \* the user's progress callback runs
 CbRun(t) ==
-  /\ t \in T /\ pc[t] = "inCb"
+  /\ pc[t] = "inCb"
   /\ cbCount' = [cbCount EXCEPT ![task[t]] = @ + 1]
   /\ pc' = [pc EXCEPT ![t] = IF cfg.sharded THEN "ocbRel" ELSE "icbRel"]
   /\ UNCHANGED <<cfg, task, vPool, exc, hasFile, vLocks, vBud, file>>
 
 OCbRel(t) ==
-  /\ t \in T /\ pc[t] = "ocbRel"
+  /\ pc[t] = "ocbRel"
   /\ ocb' = NoOne
   /\ pc' = [pc EXCEPT ![t] = IF IsWrk(t) THEN "icbRel" ELSE "lockWait"]
   /\ UNCHANGED <<cfg, task, vPool, exc, hasFile, tlock, icb, flock, vBud, vOut>>
@@ -277,7 +297,7 @@ FRel(w) ==
 
 \* with self._tensor_write_locks[id(tensor)]
 TLock(t) ==
-  /\ t \in T /\ pc[t] = "lockWait" /\ tlock[Ob(t)] = NoOne
+  /\ pc[t] = "lockWait" /\ tlock[Ob(t)] = NoOne
   /\ tlock' = [tlock EXCEPT ![Ob(t)] = t]
   /\ pc' = [pc EXCEPT ![t] = "holdLock"]
   /\ UNCHANGED <<cfg, task, vPool, exc, hasFile, icb, ocb, flock, vBud, vOut>>
@@ -288,38 +308,38 @@ Reserve(t) ==
 
 \* _ByteBudget.acquire, first evaluation of the predicate
 AcqFit(t) ==
-  /\ t \in T /\ pc[t] = "holdLock" /\ ~Big(t) /\ CanAcq(t)
+  /\ pc[t] = "holdLock" /\ ~Big(t) /\ CanAcq(t)
   /\ Reserve(t) /\ UNCHANGED waiters
   /\ pc' = [pc EXCEPT ![t] = "reserved"]
   /\ UNCHANGED <<cfg, task, vPool, exc, hasFile, vLocks, vOut>>
 
 AcqOver(t) ==
-  /\ t \in T /\ pc[t] = "holdLock" /\ Big(t) /\ CanAcq(t)
+  /\ pc[t] = "holdLock" /\ Big(t) /\ CanAcq(t)
   /\ Reserve(t) /\ UNCHANGED waiters
   /\ pc' = [pc EXCEPT ![t] = "reserved"]
   /\ UNCHANGED <<cfg, task, vPool, exc, hasFile, vLocks, vOut>>
 
 AcqBlock(t) ==
-  /\ t \in T /\ pc[t] = "holdLock" /\ ~CanAcq(t)
+  /\ pc[t] = "holdLock" /\ ~CanAcq(t)
   /\ waiters' = waiters \cup {t}
   /\ pc' = [pc EXCEPT ![t] = "budWait"]
   /\ UNCHANGED <<cfg, task, vPool, exc, hasFile, vLocks, inFlight, oversized, vOut>>
 
 \* a notified waiter re-evaluates its predicate
 WakeFit(t) ==
-  /\ t \in T /\ pc[t] = "budWait" /\ t \notin waiters /\ CanAcq(t)
+  /\ pc[t] = "budWait" /\ t \notin waiters /\ CanAcq(t)
   /\ Reserve(t) /\ UNCHANGED waiters
   /\ pc' = [pc EXCEPT ![t] = "reserved"]
   /\ UNCHANGED <<cfg, task, vPool, exc, hasFile, vLocks, vOut>>
 
 WakeBlock(t) ==
-  /\ t \in T /\ pc[t] = "budWait" /\ t \notin waiters /\ ~CanAcq(t)
+  /\ pc[t] = "budWait" /\ t \notin waiters /\ ~CanAcq(t)
   /\ waiters' = waiters \cup {t}
   /\ UNCHANGED <<cfg, pc, task, vPool, exc, hasFile, vLocks, inFlight, oversized, vOut>>
 
 \* tensor.tofile at the tensor's offset; a failing tensor raises and writes nothing
 Write(t) ==
-  /\ t \in T /\ pc[t] = "reserved"
+  /\ pc[t] = "reserved"
   /\ IF Ob(t) \in cfg.fail
      THEN exc' = exc \cup {t} /\ UNCHANGED file
      ELSE file' = WriteAt(cfg, file, task[t]) /\ UNCHANGED exc
@@ -328,7 +348,7 @@ Write(t) ==
 
 \* _ByteBudget.release in the finally clause: undo the reservation, notify_all
 Release(t) ==
-  /\ t \in T /\ pc[t] = "releasing"
+  /\ pc[t] = "releasing"
   /\ IF Big(t) THEN oversized' = FALSE /\ UNCHANGED inFlight
                ELSE inFlight' = inFlight - Sz(t) /\ UNCHANGED oversized
   /\ waiters' = {}
@@ -336,7 +356,7 @@ Release(t) ==
   /\ UNCHANGED <<cfg, task, vPool, exc, hasFile, vLocks, vOut>>
 
 TUnlock(t) ==
-  /\ t \in T /\ pc[t] = "unlocking"
+  /\ pc[t] = "unlocking"
   /\ tlock' = [tlock EXCEPT ![Ob(t)] = NoOne]
   /\ IF IsWrk(t)
      THEN /\ pc' = [pc EXCEPT ![t] = "finish"]
@@ -428,6 +448,5 @@ InvMech ==
 \* a parked waiter whose predicate holds has been notified (no lost wake-up)
 InvNoLostWakeup == \A t \in waiters : ~CanAcq(t)
 
-Fairness == \A t \in Thr(cfg) : WF_vars(ThreadStep(t))
 Termination == <>AllDone
 =============================================================================
